@@ -233,3 +233,96 @@ Proof.
   split; [vm_compute; reflexivity|]. split; [vm_compute; reflexivity|]. split; [vm_compute; reflexivity|].
   eexists. split; [vm_compute; reflexivity|]. split; vm_compute; reflexivity.
 Qed.
+
+(* ====================================================================================================== *)
+(* Tuple columns with adopting elements into typed targets (extension C18y).  ColTuple.Infer used to hand the whole
+   string "Tuple(String, DateTime64(3))" to every Inferable element (and ColNamed.Infer forwarded it unchanged), so that a
+   block the library encoded from ColTuple{ColStr, ColDateTime64} could not be decoded into a typed target of the same
+   shape.  Repaired in /repo (element i adopts argument i of splitTypeArgs, ColNamed strips its name, a different number
+   of arguments is an error); model/Results.v [infer_st] follows.  [tuple_ok] (proofs/TupleRoundtripProofs.v) is the class
+   of column trees concerned: columns that are not Inferable; everything ColAuto round-trips with its own parameters
+   (Enum8/16, DateTime('z'), DateTime64(p, 'z'), Interval kinds, Array / Nullable / LowCardinality over them); and Tuple,
+   Named, Array, Nullable, LowCardinality and Map over members of the class whose printed types are balanced arguments
+   ([arg_str_ok]: quotes and parentheses closed, no comma outside them, no white space at either end - a decidable
+   condition on the bytes of Type(), needed because an Enum's type string is whatever the caller wrote). *)
+From CH Require Import proofs.ResultsProofs proofs.ResultsProofs2 proofs.TupleRoundtripProofs.
+
+(* such a column's Infer accepts its own Type() and leaves the column as it is: the premise [col_ok] of
+   [block_roundtrip] that excluded tuples with adopting elements before the repair *)
+Theorem tuple_adopts_own_type : forall zone tl t, tuple_ok zone t -> infer_target zone tl t (type_str t) = Some t.
+Proof. exact tuple_ok_infer_target. Qed.
+Print Assumptions tuple_adopts_own_type.
+
+(* every revision, both builds on both sides, any trailing bytes: a block whose columns are of the class decodes into
+   typed targets of the same types to the same block info, counts, names, types and contents *)
+Theorem tuple_block_roundtrip_typed : forall zone tl b b' v i nrows cols ts bs rest,
+  nrows <= max_rows -> (Z.of_nat (length cols) <= maxColumnsInBlock)%Z -> in_i32 (bi_bucket i) ->
+  Forall (col_ok_tuple zone nrows) cols -> Forall2 binds cols ts ->
+  encode_block b v i nrows cols = Some bs ->
+  decode_block conflicts_b (infer_target zone tl) (infer_auto zone tl) false b' v ts (bs ++ rest)
+  = Ok ((if gate v FeatureBlockInfo then i else blank_block_info),
+        Z.of_nat (length cols), Z.of_N nrows, (match cols with [] => ts | _ => cols end)) rest.
+Proof. exact tuple_block_roundtrip_typed_proof. Qed.
+Print Assumptions tuple_block_roundtrip_typed.
+
+(* ... and into targets of the same SHAPE (C18's [fits]: the type tree up to what Infer replaces) whatever precision,
+   zone or enum definitions their leaves were built with and whatever they hold: every target ends up with the name,
+   type and contents of its own column *)
+Theorem tuple_block_binds_any_parameters : forall zone tl b b' v nrows cols ts bs rest,
+  nrows <= max_rows -> Forall (col_ok_tuple zone nrows) cols -> Forall2 fits cols ts ->
+  enc_cols b v nrows cols = Some bs ->
+  bind_result zone tl b' v (N.of_nat (length cols)) nrows ts (bs ++ rest) = (map typed_target cols, BOk rest).
+Proof. exact tuple_block_binds_any_parameters_proof. Qed.
+Print Assumptions tuple_block_binds_any_parameters.
+
+(* non-vacuity: Tuple(String, DateTime64(3), Enum8('a' = 1, 'b' = 2)) is in the class, and a block holding it decodes
+   by computation into a target built as Tuple(String, DateTime64(9, 'UTC'), <blank ColEnum>) holding an old row -
+   precision, zone and definitions adopted element by element; a named and a nested tuple are in the class as well *)
+Definition ex_tuple_ty : ty :=
+  TTuple [TStr; TFix (s2b "DateTime64(3)") 8; TEnum (s2b "Enum8('a' = 1, 'b' = 2)") 1 [(s2b "a", 1%Z); (s2b "b", 2%Z)]].
+Definition ex_tuple_col : Block.col :=
+  {| c_name := s2b "t" ; c_ty := ex_tuple_ty ;
+     c_data := DTuple [DBytes [s2b "x"; s2b "yy"]; DFix [1700000000123; 5]; DEnum [s2b "b"; s2b "a"] [2; 1]] |}.
+Definition ex_tuple_target : Block.col :=
+  {| c_name := [] ;
+     c_ty := TTuple [TStr; TFix (s2b "DateTime64(9, 'UTC')") 8; TEnum [] 2 []] ;
+     c_data := DTuple [DBytes [s2b "old"]; DFix [9]; DEnum [s2b "old"] [7]] |}.
+Definition ex_tuple_named : ty :=
+  TTuple [TNamed (s2b "s") TStr; TNamed (s2b "e") (TEnum (s2b "Enum8('a' = 1, 'b' = 2)") 1 [(s2b "a", 1%Z); (s2b "b", 2%Z)])].
+Definition ex_tuple_nested : ty :=
+  TTuple [TStr; TTuple [TFix (s2b "DateTime('UTC')") 4; TNullable (TFix (s2b "DateTime64(3, 'UTC')") 8)]].
+Example c01_tuple_nonvacuous :
+  tuple_ok ex_zone ex_tuple_ty /\ tuple_ok ex_zone ex_tuple_named /\ tuple_ok ex_zone ex_tuple_nested /\
+  wf_ty ex_tuple_ty = true /\
+  b2s (type_str ex_tuple_ty) = "Tuple(String, DateTime64(3), Enum8('a' = 1, 'b' = 2))"%string /\
+  b2s (type_str ex_tuple_named) = "Tuple(s String, e Enum8('a' = 1, 'b' = 2))"%string /\
+  prepare ex_tuple_ty (c_data ex_tuple_col) = Some (c_data ex_tuple_col) /\
+  skel (c_ty ex_tuple_target) = skel ex_tuple_ty /\
+  exists bs, encode_block Safe 54460 {| bi_overflows := true ; bi_bucket := (-1)%Z |} 2 [ex_tuple_col] = Some bs /\
+    decode_block conflicts_b (infer_target ex_zone ex_tl) (infer_auto ex_zone ex_tl) false Unsafe 54460 [ex_tuple_target] (bs ++ [7])
+    = Ok ({| bi_overflows := true ; bi_bucket := (-1)%Z |}, 1%Z, 2%Z, [ex_tuple_col]) [7].
+Proof.
+  assert (Hleaf : forall t, inferable ex_zone t = true /\ norm ex_zone t = t -> tuple_ok ex_zone t)
+    by (intros t H; destruct t; cbn [tuple_ok]; right; left; exact H).
+  split.
+  { cbn [tuple_ok ex_tuple_ty]. right. right. split; [discriminate|]. cbn [fold_right].
+    repeat split; try (vm_compute; reflexivity).
+    - left. reflexivity.
+    - apply Hleaf. split; vm_compute; reflexivity.
+    - apply Hleaf. split; vm_compute; reflexivity. }
+  split.
+  { cbn [tuple_ok ex_tuple_named]. right. right. split; [discriminate|]. cbn [fold_right].
+    repeat split; try (vm_compute; reflexivity).
+    - right. right. cbn [tuple_ok]. left. reflexivity.
+    - right. right. apply Hleaf. split; vm_compute; reflexivity. }
+  split.
+  { cbn [tuple_ok ex_tuple_nested]. right. right. split; [discriminate|]. cbn [fold_right].
+    repeat split; try (vm_compute; reflexivity).
+    - left. reflexivity.
+    - right. right. split; [discriminate|]. cbn [fold_right]. repeat split; try (vm_compute; reflexivity).
+      + apply Hleaf. split; vm_compute; reflexivity.
+      + apply Hleaf. split; vm_compute; reflexivity. }
+  split; [reflexivity|]. split; [vm_compute; reflexivity|]. split; [vm_compute; reflexivity|].
+  split; [vm_compute; reflexivity|]. split; [vm_compute; reflexivity|].
+  eexists. split; [vm_compute; reflexivity|]. vm_compute. reflexivity.
+Qed.
